@@ -34,9 +34,9 @@ def hist_of(state):
     return streams, hist
 
 
-def scen(run, name, streams, hist, sync, rotate_at=0, truncate=False, recycle=0, maint="", rotate_every=False, remove_after="", nowatch=False, fillers=0, lz4=False, cap=0, symlink=False):
+def scen(run, name, streams, hist, sync, rotate_at=0, truncate=False, recycle=0, maint="", rotate_every=False, remove_after="", nowatch=False, fillers=0, lz4=False, cap=0, symlink=False, nofield="", exact_line=0):
     return dict(run=run, name=name, sync=sync, streams=streams, hist=hist, rotate_at=rotate_at, truncate=truncate, recycle=recycle, maint=maint,
-                rotate_every=rotate_every, remove_after=remove_after, nowatch=nowatch, fillers=fillers, lz4=lz4, cap=cap, symlink=symlink)
+                rotate_every=rotate_every, remove_after=remove_after, nowatch=nowatch, fillers=fillers, lz4=lz4, cap=cap, symlink=symlink, nofield=nofield, exact_line=exact_line)
 
 
 def perform(ctx, binary, scs, tag="c03"):
@@ -102,7 +102,7 @@ def commit_order_stage(ctx):
         for p in res.printed:
             if not (isinstance(p, dict) and "hist" in p) or not any(h[0] in ("kill", "stop") for h in p["hist"]) or len(set(p["streams"])) < 2:
                 continue
-            scs.append(scen(k, "sim-%d" % k, p["streams"], p["hist"], bool(p["sync"])))
+            scs.append(scen(k, "sim-%d" % k, p["streams"], p["hist"], bool(p["sync"]), nofield="b" if k % 2 == 0 else ""))
             k += 1
     if len(scs) < 5:
         raise vlib.Infra("too few histories with several streams (%d)" % len(scs))
@@ -187,7 +187,8 @@ def run(ctx):
             if not any(h[0] in ("kill", "stop") for h in p["hist"]):
                 continue
             rot = ctx.rng.choice([0, 0, 2, 3, 4]) if len(p["streams"]) >= 3 else 0
-            scs.append(scen(k, "sim-%d" % k, p["streams"], p["hist"], bool(p["sync"]), rotate_at=rot))
+            # in every second history the lines of stream "b" carry no stream field: the file mixes the default stream with a named one
+            scs.append(scen(k, "sim-%d" % k, p["streams"], p["hist"], bool(p["sync"]), rotate_at=rot, nofield="b" if k % 2 == 0 else ""))
             k += 1
     # truncation family (single run): deliver everything, truncate in place, new content must be delivered
     for i in range(12 if thorough else 4):
@@ -319,6 +320,18 @@ def run(ctx):
                 hist += [["append", j], ["act", j], ["deliver", j], ["commit", j]]
         hist += [["save", 0], ["kill", 0], ["restart", 0], ["open", 0]]
         scs.append(scen(k, "symlink-rotation-%d" % k, ["a"] * j, hist, True, symlink=True))
+        k += 1
+    # a complete line of exactly max_event_size bytes (newline included) is an ordinary line: delivered, also across a kill
+    for i in range(4 if thorough else 2):
+        n = ctx.rng.randint(3, 5)
+        ex = ctx.rng.randint(1, n)
+        hist = [["append", j + 1] for j in range(n)]
+        if i % 2 == 1 and ex > 1:
+            for j in range(1, ex):
+                hist += [["act", j], ["deliver", j], ["commit", j]]
+            hist += [["save", 0], ["kill", 0], ["restart", 0]]
+        hist += [["open", 0]]
+        scs.append(scen(k, "exact-size-line-%d" % k, ["a"] * n, hist, True, exact_line=ex))
         k += 1
     # graceful stop right after the last observed commit (async persistence: the stop's own save is what puts it on disk),
     # restart: nothing is lost, and the offsets file held every observed commit (CleanStopSavesAll, reported as drift)
